@@ -153,6 +153,7 @@ class Scenario:
 
         sock = tr.FakeSocket(self.handler(chunks))
         client = rc.SyncRpcClient(sock, self.make_auth())
+        self.last_client = client
         try:
             if self.sealed:
                 client.bind(self.contexts())
@@ -180,6 +181,8 @@ class Scenario:
         stream = tr.FakeStream(self.handler(chunks), eof_after_each_reply=True)
         reader = CountingReader(stream)
         client = rc.AsyncRpcClient(reader, stream.writer, self.make_auth())
+        self.last_client = client
+        self.last_stream = stream
         try:
             if self.sealed:
                 await client.bind(self.contexts())
@@ -306,6 +309,43 @@ class Driver:
         elif out[0] == "spin" or io.reads_after_eof > 2:
             rec.violation(f"{self.client}-eof-spin", f"{self.sc.name} EOF after {k} bytes: {io.reads_after_eof} reads after EOF ({out[0]})", wit)
         rec.case((self.sc.name, "eof", k, tuple(pre_cuts), self.client), nontrivial=True)
+        self._n_eof = getattr(self, "_n_eof", 0) + 1
+        if out[0] == "error" and self._n_eof % 8 == 1:
+            # the connection has ended: a further call on the same client must end promptly too (with an error), not hang
+            # on something the failed call left behind (a lock it still holds, a future nobody will complete)
+            cl_ = self.sc.last_client
+            rec.count("calls_after_eof")
+            if self.client == "sync":
+                import threading
+
+                res: t.List[str] = []
+
+                def again():
+                    try:
+                        cl_.request(0, 3, b"AFTER-EOF")
+                        res.append("returned")
+                    except BaseException as e:  # noqa: BLE001
+                        res.append(type(e).__name__)
+
+                th = threading.Thread(target=again, daemon=True)
+                th.start()
+                th.join(30)
+                if th.is_alive():
+                    rec.violation("sync-blocked-after-eof", f"{self.sc.name}: after the EOF error at byte {k}, another request() on the same client had not returned after 30 s", wit)
+            else:
+
+                async def again_async():
+                    try:
+                        await cl_.request(0, 3, b"AFTER-EOF")
+                        return "returned"
+                    except Exception as e:  # noqa: BLE001
+                        return type(e).__name__
+
+                try:
+                    self.sc.last_stream.feed_eof_when_idle()
+                    self.loop.run_until_complete(asyncio.wait_for(again_async(), 30))
+                except asyncio.TimeoutError:
+                    rec.violation("async-blocked-after-eof", f"{self.sc.name}: after the EOF error at byte {k}, another request() on the same client had not finished after 30 s", wit)
 
 
 def run_small(spec, rec: Recorder):
